@@ -148,8 +148,7 @@ func (g *gapi[T]) Bytes(p unsafe.Pointer) string {
 	s := string(b)
 	quietly(func() {
 		for _, ms := range specs[g.ver].Metrics {
-			v, _ := g.get((*T)(p), ms.Abv)
-			s += "|" + v
+			s += "|" + safeGet(g, p, ms.Abv)
 		}
 	})
 	return s
@@ -282,12 +281,21 @@ var apis = map[int]verAPI{
 // canonErr is the canonical, comparable description of an error value:
 // which exported sentinel variable it is identical to, else its dynamic type,
 // printed fields and text.
-func canonErr(a verAPI, err error) string {
+func canonErr(a verAPI, err error) (s string) {
 	if err == nil {
 		return "<nil>"
 	}
 	if n := a.ErrName(err); n != "" {
 		return n
 	}
+	defer func() {
+		// Error() is library code: a panic in it is a value, not a crash
+		if r := recover(); r != nil {
+			if isAbort(r) {
+				panic(r)
+			}
+			s = fmt.Sprintf("%T!panic in Error(): %v", err, r)
+		}
+	}()
 	return fmt.Sprintf("%T%+v|%s", err, err, err.Error())
 }
